@@ -473,6 +473,37 @@ def r11_settings_not_truth_tested(idx, r):
         raise AnalysisError(f"only {n} settings-reading helpers found in armi.utils")
 
 
+def r12_defined_after_zero_iterations(idx, r):
+    """A local that is assigned ONLY inside the body of a `for` loop and read after that loop is unbound when the loop runs zero times
+    (tightCouplingMaxNumIters: 0, an empty interface list ...): the UnboundLocalError aborts the run between two events.  Decided for every
+    function of the operator package and armi.interfaces."""
+    n = 0
+    for m in idx.modules.values():
+        if not (m.name.startswith("armi.operators") or m.name == "armi.interfaces") or ".tests" in m.name:
+            continue
+        for f in m.all_funcs():
+            params = set(f.params()) | {a.arg for a in f.node.args.kwonlyargs} | ({f.node.args.vararg.arg} if f.node.args.vararg else set()) | ({f.node.args.kwarg.arg} if f.node.args.kwarg else set())
+            stores = {}
+            for nd in walk_local(f.node):
+                if isinstance(nd, ast.Name) and isinstance(nd.ctx, ast.Store):
+                    stores.setdefault(nd.id, []).append(nd)
+            for ordl, loop in enumerate([x for x in walk_local(f.node) if isinstance(x, ast.For)]):
+                if isinstance(loop.iter, (ast.Tuple, ast.List)) and loop.iter.elts:
+                    continue
+                n += 1
+                inbody = {nd.id for st_ in loop.body for nd in ast.walk(st_) if isinstance(nd, ast.Name) and isinstance(nd.ctx, ast.Store)}
+                tgt = {nd.id for nd in ast.walk(loop.target) if isinstance(nd, ast.Name)}
+                only = {v for v in inbody if v not in params and all(loop.lineno <= x.lineno <= loop.end_lineno for x in stores.get(v, [])) and v not in tgt}
+                else_defs = {nd.id for st_ in loop.orelse for nd in ast.walk(st_) if isinstance(nd, ast.Name) and isinstance(nd.ctx, ast.Store)}
+                late = [nd for nd in walk_local(f.node) if isinstance(nd, ast.Name) and isinstance(nd.ctx, ast.Load) and nd.id in only - else_defs and nd.lineno > loop.end_lineno]
+                # a read after the loop that an enclosing loop could only reach after a later assignment does not exist here: `only` excludes names assigned elsewhere
+                r.require(not late, f"{f.qualname}:loop{ordl}:locals-bound-after-an-empty-loop", f, node=late[0] if late else loop,
+                          msg=f"`{late[0].id if late else ''}` is assigned only inside the loop `for {norm(loop.target)} in {norm(loop.iter)[:50]}` and read after it: when the loop body never runs "
+                              "(e.g. tightCouplingMaxNumIters: 0) the read raises UnboundLocalError and the remaining events of the run (later nodes, EOC, EOL) are never delivered")
+    if n < 20:
+        raise AnalysisError(f"only {n} loops analysed in the operator package")
+
+
 def run(idx, chk):
     chk.explanation = (
         "C15: the operator's main, cycle and node loops, _interactAll, the six interactAllX entry points, getActiveInterfaces, the tight "
@@ -499,3 +530,5 @@ def run(idx, chk):
                  necessary="step lengths are defined for ANY cycle history the settings admit (the schema admits 0 for both)")
     chk.run_rule("R15.11", "numeric settings read by the cycle-history helpers are compared with None, never evaluated for truth", lambda r: r11_settings_not_truth_tested(idx, r), floor=8,
                  necessary="step lengths sum to availability x cycle length for every admitted history, including availability 0")
+    chk.run_rule("R15.12", "no local of the operator package is read after a loop that is its only place of assignment", lambda r: r12_defined_after_zero_iterations(idx, r), floor=20,
+                 necessary="every event is delivered for every admitted history, including a coupling cap of zero iterations")
